@@ -65,8 +65,11 @@ class Entry:
         self.fields = fields    # [(name bytes, value bytes)] in entry order
 
 
-def build(entries, rng, seqnum_start=1, n_data_buckets=None, n_field_buckets=None, pad_to=None, state=0):
-    """-> bytes of a journal file holding `entries` in the given order"""
+def build(entries, rng, seqnum_start=1, n_data_buckets=None, n_field_buckets=None, pad_to=None, state=0, compress_xz=False):
+    """-> bytes of a journal file holding `entries` in the given order. compress_xz: DATA payloads of 512 bytes or more are
+    stored XZ-compressed (object flag 1, header incompatible flag COMPRESSED_XZ), as journald stores long values; the reader
+    hands such a value out from a per-file decompression buffer that the next decompression overwrites"""
+    import lzma
     machine_id = bytes(rng.getrandbits(8) for _ in range(16))
     file_id = bytes(rng.getrandbits(8) for _ in range(16))
     seqnum_id = bytes(rng.getrandbits(8) for _ in range(16))
@@ -82,8 +85,9 @@ def build(entries, rng, seqnum_start=1, n_data_buckets=None, n_field_buckets=Non
         pos[0] = _align8(off + len(buf))
         return off
 
-    def obj(typ, body):
-        return bytearray(struct.pack("<BB6xQ", typ, 0, 16 + len(body)) + body)
+    def obj(typ, body, flags=0):
+        return bytearray(struct.pack("<BB6xQ", typ, flags, 16 + len(body)) + body)
+    any_compressed = [False]
 
     fht_obj = add(obj(OBJ_FIELD_HT, bytes(16 * nf)))
     dht_obj = add(obj(OBJ_DATA_HT, bytes(16 * nd)))
@@ -129,7 +133,11 @@ def build(entries, rng, seqnum_start=1, n_data_buckets=None, n_field_buckets=Non
                     bufs[fo] = fb
                     fields[name] = fo
                     fchain = max(fchain, chain_insert(fht, fh, fo, 24))
-                db = obj(OBJ_DATA, struct.pack("<QQQQQQ", h, 0, 0, 0, 0, 0) + payload)
+                if compress_xz and len(payload) >= 512:
+                    db = obj(OBJ_DATA, struct.pack("<QQQQQQ", h, 0, 0, 0, 0, 0) + lzma.compress(payload, format=lzma.FORMAT_XZ, check=lzma.CHECK_NONE, preset=0), flags=1)
+                    any_compressed[0] = True
+                else:
+                    db = obj(OBJ_DATA, struct.pack("<QQQQQQ", h, 0, 0, 0, 0, 0) + payload)
                 do = add(db)
                 bufs[do] = db
                 datas[payload] = do
@@ -203,7 +211,7 @@ def build(entries, rng, seqnum_start=1, n_data_buckets=None, n_field_buckets=Non
         out[o:o + len(b)] = b
     tail_obj = objs[-1][0]
     last_boot = entries[-1].boot if entries else bytes(16)
-    hdr = b"LPKSHHRH" + struct.pack("<II", 0, 0) + bytes([state]) + bytes(7) + file_id + machine_id + last_boot + seqnum_id
+    hdr = b"LPKSHHRH" + struct.pack("<II", 0, 1 if any_compressed[0] else 0) + bytes([state]) + bytes(7) + file_id + machine_id + last_boot + seqnum_id
     hdr += struct.pack("<15Q", header_size, total - header_size, dht_obj + 16, 16 * nd, fht_obj + 16, 16 * nf, tail_obj, len(objs),
                        len(entries), (seq - 1) if entries else 0, seqnum_start if entries else 0, main_array,
                        entries[0].rt if entries else 0, entries[-1].rt if entries else 0, entries[-1].mono if entries else 0)
@@ -217,7 +225,7 @@ FIELD_NAMES = (b"PRIORITY", b"SYSLOG_IDENTIFIER", b"_PID", b"_UID", b"_COMM", b"
                b"_SYSTEMD_UNIT", b"CODE_FILE", b"CODE_LINE", b"_CMDLINE", b"UNIT", b"X_EXTRA")
 
 
-def gen_entries(rng, n, t0_us=None, pattern="increasing", binary_p=0.1, multiline_p=0.15, tag=b"J"):
+def gen_entries(rng, n, t0_us=None, pattern="increasing", binary_p=0.1, multiline_p=0.15, tag=b"J", long_p=0.0):
     """n entries with unique MESSAGE texts ('<tag><index> ...'); receive times by pattern"""
     t = t0_us if t0_us is not None else 1_600_000_000_000_000 + rng.randrange(10**9) * 1000
     boots = [bytes(rng.getrandbits(8) for _ in range(16)) for _ in range(rng.choice((1, 1, 2)))]
@@ -261,6 +269,14 @@ def gen_entries(rng, n, t0_us=None, pattern="increasing", binary_p=0.1, multilin
             else:
                 v = bytes(rng.choice(b"abcdefghijklmnopqrstuvwxyz-./_") for _ in range(rng.randint(1, 20)))
             fields.append((nm, v))
+        if long_p and rng.random() < long_p:
+            # values long enough for journald to store them compressed: a command line, a one-line stack trace, ...
+            for nm in rng.sample((b"_CMDLINE", b"MESSAGE", b"X_TRACE", b"CODE_FILE"), rng.randint(1, 3)):
+                v = bytes(rng.choice(b"abcdefghijklmnopqrstuvwxyz-./_ =:") for _ in range(rng.randint(520, 1800)))
+                if nm == b"MESSAGE":
+                    fields[0] = (b"MESSAGE", msg.split(b"\n")[0] + b" " + v)
+                else:
+                    fields = [f for f in fields if f[0] != nm] + [(nm, nm.lower() + b":" + v)]
         if len(fields) > 1 and rng.random() < 0.15:
             # a field may occur more than once in an entry, with different values
             nm = rng.choice([f for f in fields if f[0] != b"MESSAGE"])[0]
